@@ -649,7 +649,10 @@ def check_state(acc, init, hist, t):
             bad("tip_to_tip_distances", tg_pairs(gm), tg_pairs(sums))
         # the same two answers for a chosen set of end points: every subset of two or more tips (up to five tips), listed in
         # the reverse of the tree's own tip order, as names and as nodes
-        if 3 <= len(tipnames) <= 5 and hasattr(t, "get_node_matching_name"):
+        all_names = [n.name for n in t.traverse(include_self=True)]
+        # end points are looked up by name: only judged where every node name is unique (trees that carry the recorded
+        # duplicate generated names are reported under that finding, not here)
+        if 3 <= len(tipnames) <= 5 and hasattr(t, "get_node_matching_name") and len(set(all_names)) == len(all_names):
             done = False
             for r in range(2, len(tipnames) + 1):
                 for sub in itertools.combinations(tipnames, r):
